@@ -85,4 +85,18 @@ def StyleIdem (s : Style) (forceMulti : Bool) : Prop := repTexts.all (idemOn s f
 
 instance (s : Style) (m : Bool) : Decidable (StyleIdem s m) := inferInstanceAs (Decidable (_ = true))
 
+/-! ### what the second run's locator meets above the written header -/
+
+/-- **nothing above the header is a comment block with REUSE information**: at every line start of
+    `a ++ rest` that lies inside `a` (`rest` is the written header, its line end and what follows),
+    `comment_at_first_character` finds no comment, or a comment (it may reach into the header: an
+    unterminated opener above it) without REUSE information.  This is exactly what
+    `_find_first_spdx_comment` evaluates before it reaches the header's own line. -/
+def nothingAbove (c : HdrCfg) (a rest : Text) : Bool :=
+  (lineStartSuffixes (a ++ rest)).all fun p =>
+    decide (a.length ≤ p.1.length) ||
+      (match commentAtFirst c.style p.2 with
+       | .ok cm => !containsReuseInfo c.parses cm
+       | .error _ => true)
+
 end Spec
